@@ -769,6 +769,12 @@ func (endp *Endpoint) wrapErr(msgId string, mangleUTF8 bool, command string, err
 		res.EnhancedCode = smtp.EnhancedCode(exterrors.EnhancedCode(res.EnhancedCode).FitFor(res.Code))
 	}
 
+	// The text is written as one line. With a line break in it (go-smtp's
+	// client joins the lines of a multi-line reply of a downstream server with
+	// "\n") the rest would be a line without any code, read by the client as
+	// the reply to its next command.
+	res.Message = strings.NewReplacer("\r\n", " ", "\r", " ", "\n", " ").Replace(res.Message)
+
 	if msgId != "" {
 		res.Message += " (msg ID = " + msgId + ")"
 	}
